@@ -140,7 +140,11 @@ func (b Bytes) Less(v Value) bool {
 		return b.Kind() < v.Kind()
 	}
 
-	return string(b.b) < string(v.(*Bytes).b)
+	c := v.(Bytes)
+	if string(b.b) != string(c.b) {
+		return string(b.b) < string(c.b)
+	}
+	return b.offset < c.offset
 }
 
 // Negate returns {(negateTag): b}.
